@@ -20,3 +20,31 @@ claim("C07", "exploration",
       "Random artifact histories on subjects that are images, indexes, artifacts or missing, limits from 700 B to 4 MiB, both stores with restarts; after every operation every subject's Link chain is walked unfiltered and per artifactType, twice (second answer from the page cache): set equality with the model, each digest once, descriptor fields as pushed, page sizes within the limit, OCI-Filters-Applied on every filtered response of a non-empty subject, 200 + OCI index for unknown repositories.",
       "An entry whose own descriptor is within 160 bytes of the limit may be absent (cannot fit); the filter header is demanded only where the subject has referrers (an empty answer is the same with and without a filter).",
       "reference-model monitor over Link-chain walks", "DESIGN.md section 5 C07")
+claim("C01", "exploration",
+      "Product generator over upload protocol x algorithm at creation x algorithm at completion x declared-digest kind with interleaved sessions, mounts with wrong-bytes completion, manifest pushes by digest/tag/tag+?digest=; the content-addressing monitor G1 reads every digest ever declared or computed, as blob and as manifest, in three repositories, and directory-store blob files are re-hashed.",
+      "Hash functions of the Go standard library are trusted; sizes up to 70 KiB; 2xx on a wrong declared digest is only tolerated for a monolithic POST whose declared digest is already stored (de-duplication without reading the body).",
+      "content-addressing monitor over a protocol/algorithm/digest-kind product workload", "DESIGN.md section 5 C01")
+claim("C04", "exploration",
+      "Valid manifests and 12 mutation classes pushed into empty, populated and referrer-heavy repositories; acceptance is predicted from how the case was built; after every push the complete observable snapshot (tags, manifests, referrers, blobs) is compared with the model, the refused body is probed as blob and manifest, and the other repository is re-compared.",
+      "Content types with parameters / other case / absent are 'may' (the model follows the answer); consistency of type and body is read minimally: a mediaType field must equal the type, an image-shaped body is not an index and vice versa.",
+      "reference-model monitor with must/may predictions + snapshot-unchanged oracle", "DESIGN.md section 5 C04")
+claim("C05", "exploration",
+      "Random object graphs with aliasing and referrer chains, random push/delete histories with collection points anywhere, ages set and collections triggered through hooks, 16 policies x grace on/off x 3 stores; after every collection every element of MustKeep (DESIGN Appendix A, role-aware reference walk) must still be served with its bytes, every tag must resolve and every tagged image must pull completely.",
+      "The collection specification of Appendix A is trusted as the reading of the statement; losses that are exactly the recorded findings K1/K6 (and K5 resurrections) are recognised by history-based signatures; the model adopts what the specification leaves open.",
+      "reference-model monitor (collection specification) over hook-triggered collections", "DESIGN.md section 5 C05, Appendix A")
+claim("C06", "exploration",
+      "Same generator; when nothing is young every element of Garbage must be gone after one pass, no index entry may lack content, the directory must be a valid layout, a second pass must change neither the observable state nor the files (except surfacing K1/K5/K6), an emptied repository must disappear with EmptyRepo; plus store-wide passes over healthy, empty, removed and corrupt repositories that must collect every healthy one.",
+      "Garbage is the complement of an over-approximated 'possibly retained' set, so the claim 'must be gone' is never stronger than the statement; the memory store cannot be made to fail from outside, so starvation is decided on the directory store.",
+      "reference-model monitor (collection specification) + convergence and starvation oracles", "DESIGN.md section 5 C06, Appendix A")
+claim("C08", "exploration",
+      "Protocol sequences over interleaved sessions with right/stale/future/malformed offsets and states, foreign-repository use, cancel, wrong digests, mount-fallback sessions; status query of every open session, conservation (model == hook listing == _uploads files) and prefix-digest probes after every request; RepoUploadMax bound with LRU order; expiry with one-sided timing.",
+      "Requests of one session are issued sequentially (two simultaneous writers on one id are outside the statement); an absent state token is 'may'; expiry upper bound is 3 s for 40/80 ms grace periods (generous bounded-liveness restatement).",
+      "per-session reference model + conservation monitor over hook and filesystem observations", "DESIGN.md section 5 C08")
+claim("C15", "exploration",
+      "Grammar-based hostile requests (tens of thousands quick, millions thorough) against empty, populated, open-session and paged-referrer servers on both stores with three monitors on every exchange (no panic / no 5xx, OCI error document with registered codes, invalid names reach no handler) and ~23 directed conditions with their allowed codes; rerun under -race (checkptr).",
+      "Storage is healthy throughout, so any 5xx is attributed to the handler; only conditions the harness builds knowingly are judged for the specific code.",
+      "response monitors (G2/G3/routing) over a grammar-based request generator", "DESIGN.md section 5 C15")
+claim("C16", "exploration",
+      "Six repository names that are prefixes/nestings of each other; every digest and tag is probed in every repository after writes; mounts with ordinary and hostile sources; 18 hostile path templates; internal/store is built with its os import replaced by a shim so that every path of every filesystem call is checked against the repositories the request addresses; a sentinel tree next to the root is compared byte for byte.",
+      "The shim sees only calls made through package os in internal/store (the only package that touches the filesystem); addressed repositories are computed from the cleaned URL as any router would.",
+      "isolation probes + filesystem path monitor (os shim through build overlay) + sentinel snapshot", "DESIGN.md section 5 C16")
